@@ -1,10 +1,14 @@
 SPECIFICATION Spec
 CONSTANTS
-  Constructs = {"map", "pp", "pfe", "worker", "pbuf", "split", "buffer", "merge", "gen", "multiread"}
+  Constructs = {"map", "pp", "pfe", "worker", "pbuf", "pbufg", "split", "buffer", "merge", "gen", "multiread"}
   MaxN = 3
   MaxK = 2
   AllowStop = FALSE
   RaceReps = 0
+  FillReps = 0
+  MaxBurst = 1
+  BurstReps = 3
+  Opts = {}
   Depth = 7
 INVARIANT Inv
 CONSTRAINT EmitAll
